@@ -60,3 +60,28 @@ pub proof fn lemma_boundary_in_piece(s: Seq<char>, ca: int, cb: int, k: int)
     assert(p.take(n - ca) =~= s.subrange(ca, n));
     assert(boundary_at(p, k - byte_len(s.take(ca)), n - ca));
 }
+pub proof fn lemma_byte_len_monotone(s: Seq<char>, n: int, m: int)
+    requires 0 <= n < m <= s.len(),
+    ensures byte_len(s.take(n)) < byte_len(s.take(m)),
+{
+    lemma_byte_len_take(s, n, m);
+}
+// a byte offset is the offset of at most one character position
+pub proof fn lemma_boundary_unique_all(s: Seq<char>)
+    ensures forall|k: int, n: int, m: int| #![trigger boundary_at(s, k, n), boundary_at(s, k, m)] boundary_at(s, k, n) && boundary_at(s, k, m) ==> n == m,
+{
+    assert forall|k: int, n: int, m: int| #![trigger boundary_at(s, k, n), boundary_at(s, k, m)] boundary_at(s, k, n) && boundary_at(s, k, m) implies n == m by {
+        if n < m { lemma_byte_len_monotone(s, n, m); }
+        if m < n { lemma_byte_len_monotone(s, m, n); }
+    }
+}
+// the end of the first character is a boundary (position 1)
+pub proof fn lemma_first_char_boundary(s: Seq<char>)
+    ensures s.len() > 0 ==> boundary_at(s, utf8_len(s[0]), 1) && boundary(s, utf8_len(s[0])),
+{
+    if s.len() > 0 {
+        assert(s.take(1).drop_last() =~= Seq::<char>::empty());
+        assert(s.take(1).last() == s[0]);
+        assert(byte_len(s.take(1)) == byte_len(Seq::<char>::empty()) + utf8_len(s[0]));
+    }
+}
